@@ -41,6 +41,9 @@ class Eval:
         self.loops = []
         self._helper_depth = 0
         self._helper_stack = []
+        self._prefix = []
+        self._final_params = []
+        self._cur_env = None
         self.loop_args = None     # optional: [element of the 1st for loop met, of the 2nd, ...] to specialise a loop body on one concrete element
         self.closure_args = None  # optional: [args of the 1st closure met, args of the 2nd, ...] to specialise closures on concrete arguments
 
@@ -48,6 +51,8 @@ class Eval:
     def function(self, body, args=None, depth=0):
         """Evaluate a function body. args: list of terms for the parameters (default: ('param', name))."""
         env = {}
+        prev_names = self.names
+        self.names = {}   # local ids are per function: an inlined callee must not rename the caller's locals
         for i, p in enumerate(body["params"]):
             t = args[i] if args is not None and i < len(args) else None
             self.bind_pat(p, t, env, default_param=True)
@@ -58,14 +63,21 @@ class Eval:
         if depth == 0:
             self.out = []
             self.loops = []
+            self._prefix = []
+        # output effects inside an inlined callee happen under the caller's path condition as well
+        self._prefix.append(tuple(saved_c))
         v = self.expr(body["body"], env, depth)
+        self._prefix.pop()
         rets = self.returns
         self.returns = saved
         self.conds = saved_c
+        # the final values of the parameters (a helper that mutates a `&mut` argument)
+        self._final_params = [env.get(p["id"]) if p.get("p") == "Bind" else None for p in body["params"]]
         if depth == 0:
             self.last_env = {}
             for i, t in env.items():
                 self.last_env.setdefault(self.names.get(i, str(i)), []).append(t)
+        self.names = prev_names
         if rets:
             return ("returns", tuple(rets) + ((("fallthrough",), v),))
         return v
@@ -248,6 +260,12 @@ class Eval:
         # any other expression: evaluate for nested effects (e.g. closures are ignored)
         self.expr(e, env, depth)
 
+    def full_conds(self):
+        out = ()
+        for pfx in self._prefix[1:]:
+            out += tuple(pfx)
+        return out + tuple(self.conds)
+
     def decide_arm(self, e, sc, env, depth):
         """the arm of match `e` taken for the scrutinee value sc, when sc is a literal constructor / literal / tuple of those; else None"""
         if not (isinstance(sc, tuple) and sc and (sc[0] == "ctor" or (sc[0] == "lit" and len(sc) == 2) or
@@ -324,7 +342,7 @@ class Eval:
                     # write!(f, include_str!(..)) and friends: keep the raw first argument
                     t = "<" + (hq.macro_args(e["mac_src"])[1] if len(hq.macro_args(e["mac_src"])) > 1 else "?") + ">"
                 w = ("write", t + ("\n" if mac == "writeln" else ""), tuple(self.fmt_args(e, env, depth)))
-                self.out.append((tuple(self.conds), tuple(self.loops), w))
+                self.out.append((self.full_conds(), tuple(self.loops), w))
                 return w
             if mac in ("unreachable", "panic", "todo", "unimplemented"):
                 return ("panic", mac)
@@ -547,6 +565,7 @@ class Eval:
             return ("ctor", name, tuple((str(i), self.expr(a, env, depth)) for i, a in enumerate(e["args"])))
         g = callee_generic(e)
         args = [self.expr(a, env, depth) for a in e["args"]]
+        self._cur_env = env
         if g in ("std::boxed::Box::<T>::new",) or (g or "").endswith("IntoIterator::into_iter"):
             return args[0]
         if (g or "").endswith("convert::Into::into") or (g or "").endswith("convert::From::from"):
@@ -564,6 +583,7 @@ class Eval:
                 return self.conv(e, recv, depth)
             return recv
         args = [recv] + [self.expr(a, env, depth) for a in e["args"]]
+        self._cur_env = env
         if m in MUTATORS:
             root = self.root_local(e["recv"])
             if root is not None and "&mut" in (e["recv"].get("ty_adj", "") + e["recv"].get("ty", "")):
@@ -599,7 +619,7 @@ class Eval:
         name = short(generic)
         target = resolved or generic
         if name in ("Display::fmt", "Precedence::fmt_unary", "Precedence::fmt_binary", "Precedence::fmt_operator", "Debug::fmt"):
-            self.out.append((tuple(self.conds), tuple(self.loops), ("emit", name, tuple(args[:-1]))))
+            self.out.append((self.full_conds(), tuple(self.loops), ("emit", name, tuple(args[:-1]))))
         # iterator combinators over closures: keep symbolic but apply ctor functions
         if name in ("Iterator::map", "Option::map", "Iterator::flat_map", "Iterator::filter_map") and len(args) == 2:
             f = args[1]
@@ -618,8 +638,18 @@ class Eval:
                 self._helper_stack.append(target)
                 try:
                     saved_ret, saved_c = self.returns, self.conds
+                    caller_env = self._cur_env
                     v = self.function(bs[0], args, depth + 1)
                     self.returns, self.conds = saved_ret, saved_c
+                    self._cur_env = caller_env
+                    finals = list(self._final_params)
+                    arg_nodes = ([e["recv"]] + list(e.get("args", []))) if e.get("k") == "MethodCall" else list(e.get("args", []))
+                    if self._cur_env is not None:
+                        for i_, an in enumerate(arg_nodes):
+                            if i_ < len(finals) and finals[i_] is not None and finals[i_] != args[i_] and "&mut" in (an.get("ty", "") + an.get("ty_adj", "")):
+                                root = self.root_local(an.get("e", an)) if an.get("k") in ("AddrOf", "Ref") else self.root_local(an)
+                                if root is not None:
+                                    self._cur_env[root] = finals[i_]
                     return v
                 finally:
                     self._helper_stack.pop()
